@@ -151,13 +151,8 @@ fn huge_operand(op: u8, st: &Stack) -> bool {
     if !matches!(op, 0x80 | 0x98 | 0x99) {
         return false;
     }
-    match st.last() {
-        Some(top) if top.len() <= 8 => {
-            let n = ri::num(top);
-            n > num_bigint::BigInt::from(1 << 24)
-        }
-        _ => false,
-    }
+    // either of the two operands (an implementation may read them in either order)
+    st.iter().rev().take(2).any(|t| t.len() <= 8 && ri::num(t).magnitude() > &num_bigint::BigUint::from(1u32 << 16))
 }
 
 /// Run one program on both sides and report the first divergence.
@@ -233,11 +228,16 @@ pub fn spaces(tier: Tier) -> Vec<Space> {
     // (a') size/count operands large enough to make an implementation allocate: child processes with an allocation budget
     {
         let vals = vals.clone();
-        let big: Vec<Vec<u8>> = vec![h("ffffff7f"), h("ffffff00"), h("0000008000")];
-        v.push(Space::isolated("huge-operands", 3 * 22 * 3, move |case, acc| {
-            let c = crate::engine::coords(case.idx, &[3, 22, 3]);
+        let big: Vec<Vec<u8>> = vec![h("ffffff7f"), h("ffffff00"), h("0000008000"), h("ffff7f")];
+        v.push(Space::isolated("huge-operands", 3 * 22 * 4 * 2, move |case, acc| {
+            let c = crate::engine::coords(case.idx, &[3, 22, 4, 2]);
             let op = [0x80u8, 0x98, 0x99][c[0] as usize];
-            let st: Stack = vec![vals[c[1] as usize].clone(), big[c[2] as usize].clone()];
+
+            let st: Stack = if c[3] == 0 { vec![vals[c[1] as usize].clone(), big[c[2] as usize].clone()] } else { vec![big[c[2] as usize].clone(), vals[c[1] as usize].clone()] };
+            if op == 0x80 && st.last().map(|t| t.len() <= 8 && ri::num(t) > num_bigint::BigInt::from(1 << 26)).unwrap_or(false) {
+                // NUM2BIN to a size of 2^31-1 legitimately produces a 2 GiB item: a memory question, not conformance/totality
+                return;
+            }
             let mut toks = pushes_for(&st, &vec![]);
             toks.push(Tok::Op(op));
             let desc = || json!({"op": opname(op), "initial_stack": show_stack(&st)});
